@@ -89,32 +89,54 @@ Proof. vm_compute. repeat split; reflexivity. Qed.
    selector, or a filter selector ?e whose logical expression e (FilterParse.xatom: an or-list of and-lists of
    atoms) combines existence tests @q / $q, comparisons between singular queries and int / string / true /
    false / null literals with the six operators, negation, parentheses, && and ||, where the queries q of the
-   tests are again segment lists over [SelT (n-1)].  For every such query in canonical spelling the PEG
+   tests are again segment lists over [SelT (n-1)]; and CALLS of the five functions of the RFC (FilterParse.xfn):
+   length / count / value as comparables, match / search as tests, with literals, queries and nested calls as
+   arguments, for every well-typed combination ([fgood]: FnArg::is_value_type / is_nodes_type of model.rs hold
+   of the arguments).  For every such query in canonical spelling the PEG
    interpreter over the grammar of this run and the model of parser.rs return exactly its AST
    (FilterFacts.parse_filter).  The proof goes through the ordered choices of the grammar as the parser does:
    e.g. at every existence test, `comp_expr` is tried first, reads the singular prefix of the query as a
-   comparable, finds no operator and is abandoned (FilterParse.comp_expr_fails_test).  Not covered: function
-   calls, float literals, escapes, double quotes, blank space inside filters. *)
+   comparable, finds no operator and is abandoned (FilterParse.comp_expr_fails_test).  Not covered: float
+   literals, escapes, double quotes, blank space inside filters, logical expressions as function arguments. *)
 Theorem C06_with_filters_partial : forall n (q : list (gseg (SelT n))),
-  Forall (gseg_ok (SelT n) (sokT n)) q -> Forall (gseg_good (SelT n) (sgoodT n)) q ->
+  Forall (gseg_ok (SelT n) (sokT n)) q -> Forall (gseg_good (SelT n) (sgoodT (fun _ => True) n)) q ->
   parse_query (36%N :: gsegs_text (SelT n) (stextT n) q)
   = POk (segments_of_list (map (gseg_ast (SelT n) (sastT n)) q)).
-Proof. exact parse_filter. Qed.
+Proof. exact (parse_filter (fun _ => True)). Qed.
 Print Assumptions C06_with_filters_partial.
 
 (* $[?@.a==1&&!(@.b||$.c[0])].x[?@['k']<'z'] *)
 Definition ex_e1 : list (list (xatom (SelT 0))) :=
-  [[XCmp _ OpEq (XCSq false [SQShort [97]%N]) (XCLit (XInt 1%Z));
+  [[XCmp _ OpEq (XCB _ (XCSq false [SQShort [97]%N])) (XCB _ (XCLit (XInt 1%Z)));
     XParen _ true [[XTest _ false false [GShort _ [98]%N]];
                    [XTest _ false true [GShort _ [99]%N; GBracket _ (FIndex 0%Z) []]]]]].
 Definition ex_e2 : list (list (xatom (SelT 0))) :=
-  [[XCmp _ OpLt (XCSq false [SQName [107]%N]) (XCLit (XStr [122]%N))]].
+  [[XCmp _ OpLt (XCB _ (XCSq false [SQName [107]%N])) (XCB _ (XCLit (XStr [122]%N)))]].
 Definition ex_q1 : list (gseg (SelT 1)) := [GBracket _ (inr ex_e1) []; GShort _ [120]%N; GBracket _ (inr ex_e2) []].
 Example C06_with_filters_example :
   gsegs_text (SelT 1) (stextT 1) ex_q1
   = [91;63;64;46;97;61;61;49;38;38;33;40;64;46;98;124;124;36;46;99;91;48;93;41;93;46;120;91;63;64;91;39;107;39;93;60;39;122;39;93]%N
   /\ parse_query (36%N :: gsegs_text (SelT 1) (stextT 1) ex_q1)
      = POk (segments_of_list (map (gseg_ast (SelT 1) (sastT 1)) ex_q1)).
+Proof. vm_compute. split; reflexivity. Qed.
+
+
+(* $[?length(@.a)>=2&&match(@.b,'x.*')].c[?count(@.. * )==value($.n)||!search(@,$.p)]   (no blanks in the text itself) *)
+Definition ex_f1 : list (list (xatom (SelT 0))) :=
+  [[XCmp _ OpGe (XCF _ (XFn1 _ FLength (XAQuery _ false [GShort _ [97]%N]))) (XCB _ (XCLit (XInt 2%Z)));
+    XFnTest _ false (XFn2 _ FMatch (XAQuery _ false [GShort _ [98]%N]) (XALit _ (XStr [120; 46; 42]%N)))]].
+Definition ex_f2 : list (list (xatom (SelT 0))) :=
+  [[XCmp _ OpEq (XCF _ (XFn1 _ FCount (XAQuery _ false [GDescWild _])))
+                (XCF _ (XFn1 _ FValue (XAQuery _ true [GShort _ [110]%N])))];
+   [XFnTest _ true (XFn2 _ FSearch (XAQuery _ false []) (XAQuery _ true [GShort _ [112]%N]))]].
+Definition ex_q2 : list (gseg (SelT 1)) := [GBracket _ (inr ex_f1) []; GShort _ [99]%N; GBracket _ (inr ex_f2) []].
+Example C06_with_functions_example :
+  gsegs_text (SelT 1) (stextT 1) ex_q2
+  = [91;63;108;101;110;103;116;104;40;64;46;97;41;62;61;50;38;38;109;97;116;99;104;40;64;46;98;44;39;120;46;42;39;41;93;
+     46;99;
+     91;63;99;111;117;110;116;40;64;46;46;42;41;61;61;118;97;108;117;101;40;36;46;110;41;124;124;33;115;101;97;114;99;104;40;64;44;36;46;112;41;93]%N
+  /\ parse_query (36%N :: gsegs_text (SelT 1) (stextT 1) ex_q2)
+     = POk (segments_of_list (map (gseg_ast (SelT 1) (sastT 1)) ex_q2)).
 Proof. vm_compute. split; reflexivity. Qed.
 
 (* the parser model, over the grammar generated from the .pest file of this run, accepts the
